@@ -354,8 +354,9 @@ class FnView:
         return None
 
     # -- A4 guard context
-    def guards(self, n):
-        """[(cond_node, polarity)] known to hold at n (structured control flow)."""
+    def guards(self, n, with_asserts=True):
+        """[(cond_node, polarity)] known to hold at n (structured control flow).
+        with_asserts=False leaves out facts established by an earlier `if c { diverge }`."""
         out = []
         cur = n
         for a in self.ancestors(n):
@@ -377,7 +378,7 @@ class FnView:
                     if s is cur:
                         idx = i
                         break
-                if idx is not None:
+                if idx is not None and with_asserts:
                     for s in seq[:idx]:
                         x = s["e"] if s.get("k") == "semi" else s
                         if x.get("k") == "if" and x.get("else") is None and diverges(x["then"]):
@@ -534,7 +535,7 @@ def show(t, depth=0):
 def subterms(t):
     if isinstance(t, tuple):
         yield t
-        for x in t[1:]:
+        for x in (t[1:] if (t and isinstance(t[0], str)) else t):
             if isinstance(x, tuple):
                 yield from subterms(x)
             elif isinstance(x, list):
@@ -544,6 +545,18 @@ def subterms(t):
 
 def contains(t, pred):
     return any(pred(s) for s in subterms(t))
+
+
+def alpha(t, _m=None):
+    """Rename locals by order of first occurrence (alpha-equivalence for sibling comparison)."""
+    m = {} if _m is None else _m
+    if not isinstance(t, tuple):
+        return t
+    if t and t[0] == "local" and len(t) == 3:
+        if t[2] not in m:
+            m[t[2]] = len(m)
+        return ("local", "v%d" % m[t[2]])
+    return tuple(alpha(x, m) if isinstance(x, tuple) else x for x in t)
 
 
 class W:
